@@ -259,6 +259,10 @@ class ComponentLevel3( ComponentLevel2 ):
                                     f"- In class {type(s)}\n- When connecting {o1} <-> {o2}\n"
                                     f"Suggestion: make sure both sides of connection have matching bitwidth")
 
+    if o1 is o2:
+      raise InvalidConnectionError( f"{o1} is connected to itself, which is a connection loop.\n"
+                                    f"- In class {type(s)}\n- When connecting {o1} <-> {o2}" )
+
     if o1 not in s._dsl.adjacency[o2]:
       assert o2 not in s._dsl.adjacency[o1]
       s._dsl.adjacency[o1].add( o2 )
@@ -578,7 +582,9 @@ class ComponentLevel3( ComponentLevel2 ):
                   v_connected_in_parent = u in parent._dsl.adjacency and v in parent._dsl.adjacency[u]
                   assert u_connected_in_parent == v_connected_in_parent, "Please contact pymtl3 developers."
 
-                  assert u_connected_in_whost != u_connected_in_parent, "Please contact pymtl3 developers."
+                  # The connection may also have been made further up in the
+                  # hierarchy, i.e. neither in whost nor in its parent
+                  assert not ( u_connected_in_whost and u_connected_in_parent ), "Please contact pymtl3 developers."
 
                   # We permit this loopback from parent level. Otherwise
                   # we throw an error
@@ -593,7 +599,7 @@ class ComponentLevel3( ComponentLevel2 ):
           .format(  parent,
                     type(v).__name__, repr(v), repr(rhost), type(rhost).__name__,
                     type(u).__name__, repr(u), repr(whost), type(whost).__name__,
-                    repr(whost) ) )
+                    repr(whost) if u_connected_in_whost else "a component above " + repr(parent) ) )
 
                 else:
                   raise SignalTypeError( \
